@@ -94,6 +94,22 @@ Proof.
     replace (1 <=? t_order t) with true by (symmetry; apply Nat.leb_le; exact Ho). reflexivity.
 Qed.
 
+(** ... and to the Hamiltonian of ANY lattice the terms are added to: the new Hamiltonian is the old one plus [A] *)
+Theorem wgs_adds : forall (st : Lattice.state L K) (w : W) (A : mat), wgs w A ->
+  PresetsPrepare.storage_ok K M L idx st -> PresetsPrepare.storage_bounded K L st ->
+  exists h h', prepare true st = Done h /\ prepare true (push_all L K (fst w) st) = Done h' /\
+    meq (cp h') (m_add (cp h) A).
+Proof.
+  intros st w A (D & G & S) Hok Hb.
+  destruct (prepare_after_push K k0 k1 kadd kmul ksub kopp kzero Hring M L idx st (fst w) Hok Hb) as (h & h' & E & E' & Sh).
+  - eapply Forall_impl; [|exact G]. intros t [_ Ht]. exact Ht.
+  - exists h, h'. split; [exact E|]. split; [exact E'|]. intros s u Hs Hu. rewrite Sh by assumption.
+    unfold PresetsSpec.m_add. f_equal. rewrite <- (S s u Hs Hu).
+    unfold PresetsPrepare.wsem. apply (AlgebraBasics.ksum_ext K k0 kadd). intros t Ht.
+    rewrite Forall_forall in G. destruct (G t Ht) as [Ho _].
+    replace (1 <=? t_order t) with true by (symmetry; apply Nat.leb_le; exact Ho). reflexivity.
+Qed.
+
 Lemma wgs_meq : forall w A B, wgs w A -> meq A B -> wgs w B.
 Proof.
   intros w A B (D & G & S) H. split; [exact D|]. split; [exact G|].
